@@ -185,6 +185,7 @@ def theorem_check(pid: str) -> dict:
             okcount += 1
             continue
         names_ax = re.findall(r"^([A-Za-z_][A-Za-z0-9_.']*)\s*:", b, flags=re.M)
+        names_ax = [a for a in names_ax if a != "Axioms"]      # the block header itself
         axioms.update(names_ax)
         if all(a in ALLOWED_AXIOMS for a in names_ax):
             okcount += 1
